@@ -692,6 +692,34 @@ class RootModel:
         gs = I.module_value(self.mod, "get_settings")
         return I.call(gs, [], {"max_iters": self.MAX_ITERS, "x_tol": Dual(_A.atom("xtol")), "r_tol": Dual(_A.atom("rtol"))})
 
+    def outer_probe(self, env, root_atom):
+        """What find_root returns when custom_root returns the root `root_atom` (a bracket end `b0` / `b1`, or a fresh symbol with a sample
+        value in `env`) with tangent dROOT: the root component of the result, as a dual number.  JAX differentiates whatever find_root does
+        to that result in the ordinary way, so the derivative of the returned root is the implicit-function-theorem value only if this
+        component is the root itself with tangent exactly dROOT."""
+        I = self.interp(env)
+        rec = {}
+
+        def custom_root(it, args, kw):
+            names = ["f", "initial_guess", "solve", "tangent_solve", "has_aux"]
+            d = dict(zip(names, args))
+            d.update(kw)
+            rec["has_aux"] = d.get("has_aux", False)
+            root = Dual(_A.atom(root_atom), _A.atom("dROOT"))
+            return (root, Ext("custom_root.aux")) if rec["has_aux"] else root
+        I.ext_special["jax.lax.custom_root"] = custom_root
+        find_root = I.module_value(self.mod, "find_root")
+        A = lambda n: Dual(_A.atom(n))
+        br = Arr([A("b0"), A("b1")], (2,))
+        out = I.call(find_root, [self.opaque("fo"), A("x0o"), br, self.settings(I)], {})
+        if "has_aux" not in rec:
+            raise EvalError("custom_root not reached")
+        if isinstance(out, (tuple, list)) and out:
+            out = out[0]
+        elif isinstance(out, Record) and out.values:
+            out = out.values[0]
+        return I.num(out)
+
     def run(self, env, loop_mode="init", x0=None, loop_result=None, solve=True):
         """Interpret find_root(fo, x0o, [b0, b1], get_settings(...)); then call the solver handed to custom_root on (f, x0).
         loop_mode 'init': while_loop returns its initial carry; 'result': it returns loop_result(initial carry)."""
@@ -723,7 +751,14 @@ class RootModel:
             raise Incomplete(f"{self.modname}.find_root: {ex}")
         run.settings = self.settings(I)
         br = Arr([A("b0"), A("b1")], (2,))
-        run.outer = I.call(find_root, [self.opaque("fo"), A("x0o"), br, run.settings], {})
+        run.outer_error = None
+        try:
+            run.outer = I.call(find_root, [self.opaque("fo"), A("x0o"), br, run.settings], {})
+        except EvalError as ex:
+            # what find_root does to the result of custom_root needs a concrete root (see outer_probe); the solver is analysed all the same
+            if run.custom_root is None:
+                raise
+            run.outer, run.outer_error = None, str(ex)
         if run.custom_root is None:
             raise Incomplete("find_root does not reach jax.lax.custom_root: the way it is made differentiable is not recognised")
         if run.loops:
